@@ -286,46 +286,10 @@ def r6(ctx: Ctx) -> None:
             ctx.unrec(f, f.node, "the order leaves the priority queue", "removal idiom not recognised (neither heappop-of-top nor remove(order)): " + ", ".join(sorted({getattr(e, "name", e.kind) for e in anymut})))
             continue
         ctx.check(ok, f, f.node, "the order leaves the priority queue (pop only when it is the top)", "heappop if top else remove(order)", ", ".join(e.name for e in out) + f" top={top}" if out else "the queue is not modified")
-    # reaper
-    f = ctx.func("OrderBook._check_expired_orders")
-    for p in ctx.paths(f.qualname):
-        if p.exit[0] != "return":
-            continue
-        lps = loops(p)
-        rm_loops = []
-        key_loops = []
-        for l in lps:
-            el = ("sym", f"{l.target[0]}∈{l.loopid}") if l.target else None
-            for bp in l.paths:
-                for c in calls(bp, into_loops=False):
-                    if c.name == "remove" and c.recv is not None and key(strip_ver(c.recv)).endswith("priority_queue"):
-                        rm_loops.append((l, bp, c, el))
-                    if c.name == "pop" and c.recv is not None and key(strip_ver(c.recv)).endswith("expire_time_list"):
-                        key_loops.append((l, bp, c, el))
-                for e in bp.events:
-                    if e.kind == "del" and key(strip_ver(e.base)).endswith("expire_time_list"):
-                        key_loops.append((l, bp, e, el))
-        if not rm_loops and not key_loops:
-            continue  # the `nothing expired` path
-        ok = len({id(x[0]) for x in rm_loops}) == 1 and len({id(x[0]) for x in key_loops}) == 1
-        detail = f"{len({id(x[0]) for x in rm_loops})} order loop(s), {len({id(x[0]) for x in key_loops})} bucket loop(s)"
-        if ok:
-            ol = rm_loops[0][0]
-            el = rm_loops[0][3]
-            for bp in ol.paths:
-                rm = [c for c in calls(bp) if c.name == "remove" and c.args and c.args[0] == el and key(strip_ver(c.recv)).endswith("priority_queue")]
-                lg = [c for c in calls(bp) if c.site.how == "ctor" and c.name == "ExpirationLog"]
-                if len(rm) != 1 or len(lg) != 1 or bp.conds or bp.exit[0] != "fall":
-                    ok = False
-                    detail = f"per expired order: {len(rm)} removal(s), {len(lg)} record(s), conditions={len(bp.conds)}"
-            kl = key_loops[0][0]
-            kel = key_loops[0][3]
-            for bp in kl.paths:
-                pp = [c for c in calls(bp) if c.name == "pop" and c.args and c.args[0] == kel] + [e for e in bp.events if e.kind == "del" and e.index == kel]
-                if len(pp) != 1 or bp.conds:
-                    ok = False
-                    detail = f"per expired bucket: {len(pp)} pop(s)"
-        ctx.check(ok, f, f.node, "reaper: one removal and one record per expired order, one pop per expired bucket", "for o in expired: log+remove(o); for k in expired keys: pop(k)", detail)
+    # reaper: decided by where the removed / recorded / popped values come from, whatever the loop shape
+    from .reaper import check as reaper_check
+
+    reaper_check(ctx, aspects=("remove", "pop"))
 
 
 def _path_has(p: Path, k: str, pol: bool) -> bool:
